@@ -139,6 +139,120 @@ def late_cases(rng, n):
                    meta=dict(kind='late-subscriber', dest=x, sa=sa, loses=loses, bypass=bypass, shape=0, dll=dll, broadcast=False))
 
 
+TWO_CAS = dict(name='two-operational-cas', subs=[dict(cid=20, filt=None)],
+               cas=[dict(name=21, addr=0x48, bypass=True, subs=[21], req=[22]), dict(name=22, addr=0x49, bypass=True, subs=[23], req=[24]),
+                    dict(name=23, addr=0x4A, bypass=False, subs=[25], req=[26])])
+
+
+def request_cases(dlls):
+    """two operational CAs (and one that never claimed) on ONE ECU, each with its own request listeners: a request to one of
+    them — for a parameter group or for the address-claim PGN — concerns that CA only; a global one concerns both"""
+    for dll in dlls:
+        for d in (0x48, 0x49, 0x4A, 0x4B, 0xFF):
+            for what, data in (('pg', [0xCA, 0xFE, 0x00]), ('claim', [0x00, 0xEE, 0x00])):
+                yield dict(stacks=[dict(dll=dll, max_cmdt=2, subs=TWO_CAS['subs'], cas=TWO_CAS['cas'])], lat=[1], jit=[1], script=[],
+                           inject=[dict(t=1000, to=0, id=R.ref_can_id(6, 0xEA00 + d, 0x90), data=data, via='listener')], horizon=2_000_000,
+                           meta=dict(kind='request-two-cas', what=what, dest=d, dll=dll, shape=0, broadcast=False))
+
+
+def oracle_request(sc, res):
+    m, v = sc['meta'], []
+    d = m['dest']
+    addressed = [c for c in TWO_CAS['cas'] if c['bypass'] and (d == 255 or c['addr'] == d)]
+    reqs = sorted(e[3] for e in res.trace if e[2] == 'req')
+    txs = [e for e in res.trace if e[2] == 'tx']
+    if m['what'] == 'pg':
+        exp = sorted(cid for c in addressed for cid in c['req'])
+        if reqs != exp:
+            v.append(dict(kind='request-handed-to-the-wrong-applications', meta=m, fired=reqs, expected=exp))
+        if txs:
+            v.append(dict(kind='request-answered-with-a-frame', meta=m, frames=[hex(e[3]) for e in txs]))
+    else:
+        if reqs:
+            v.append(dict(kind='claim-request-handed-to-applications', meta=m, fired=reqs))
+        got = sorted(e[3] & 0xFF for e in txs)
+        exp = sorted(c['addr'] for c in addressed)
+        if got != exp or any(((e[3] >> 8) & 0xFFFF) != 0xEEFF for e in txs):
+            v.append(dict(kind='claim-request-answered-by-the-wrong-cas', meta=m, answered_from=got, expected=exp))
+    if any(e[2] == 'cb' for e in res.trace):
+        v.append(dict(kind='request-delivered-as-message', meta=m))
+    for js in res.job:
+        if js != 'alive':
+            v.append(dict(kind='job-thread-' + js, meta=m))
+    return v
+
+
+def cmdt_pdu2_cases(dests):
+    """a PDU2 parameter group (PF >= 240) transported in CONNECTION mode to one address: what is reassembled is addressed to
+    that one node, like the connection that carried it"""
+    for dll in ('j1939-21', 'j1939-22'):
+        for si, shape in enumerate(SHAPES):
+            for d in dests:
+                sa = 0x90
+                if dll == 'j1939-21':
+                    inject = [dict(t=1000, to=0, id=R.ref_tp_cm_id(7, d, sa), data=R.ref_rts(20, 3, 255, 0xFECA), via='listener')]
+                    for q in range(1, 4):
+                        inject.append(dict(t=1000 + 20000 * q, to=0, id=R.ref_tp_dt_id(d, sa), data=[q] + [(q * 16 + i) & 0xFF for i in range(7)], via='listener'))
+                else:
+                    def cm(ctrl, sess, size, nseg, b7, b8, pgn):
+                        return [ctrl | (sess << 4), size & 255, (size >> 8) & 255, (size >> 16) & 255, nseg & 255, (nseg >> 8) & 255, (nseg >> 16) & 255, b7, b8, pgn & 255, (pgn >> 8) & 255, (pgn >> 16) & 255]
+                    cmid = R.ref_can_id(7, 0x4D00 + d, sa)
+                    inject = [dict(t=1000, to=0, id=cmid, data=cm(0, 2, 70, 2, 255, 0, 0xFECA), fd=True, via='listener'),
+                              dict(t=21000, to=0, id=R.ref_can_id(7, 0x4E00 + d, sa), data=[0x20, 1, 0, 0] + list(range(60)), fd=True, via='listener'),
+                              dict(t=41000, to=0, id=R.ref_can_id(7, 0x4E00 + d, sa), data=[0x20, 2, 0, 0] + list(range(10)) + [255, 255], fd=True, via='listener'),
+                              dict(t=61000, to=0, id=cmid, data=cm(2, 2, 70, 2, 0, 0, 0xFECA), fd=True, via='listener')]
+                yield dict(stacks=[dict(dll=dll, max_cmdt=255, subs=shape['subs'], cas=shape['cas'])], lat=[1], jit=[1], script=[], inject=inject,
+                           horizon=4_000_000, meta=dict(kind='cmdt-pdu2', shape=si, dest=d, dll=dll, broadcast=False))
+
+
+def oracle_cmdt_pdu2(sc, res):
+    m, v = sc['meta'], []
+    shape = SHAPES[m['shape']]
+    n = 20 if m['dll'] == 'j1939-21' else 70
+    cbs = sorted(e[3] for e in res.trace if e[2] == 'cb' and len(e[7]) == n)
+    exp = expected_cbs(shape, m['dest'], False)
+    if cbs != exp:
+        v.append(dict(kind='connection-mode-message-handed-to-the-wrong-listeners', meta=m, fired=cbs, expected=exp))
+    if m['dest'] not in owned(shape) and any(e[2] == 'tx' for e in res.trace):
+        v.append(dict(kind='foreign-frame-answered', meta=m))
+    for js in res.job:
+        if js != 'alive':
+            v.append(dict(kind='job-thread-' + js, meta=m))
+    return v
+
+
+def sender_cases(rng, n):
+    """the ECU has SENT connection-mode messages from an address it does not own (ecu.send_pgn with any source address; nobody
+    answers, the transfer is abandoned) — that does not make the address its own: a later RTS / CTS / message for it is foreign"""
+    for k in range(n):
+        dll = 'j1939-21' if k % 3 != 2 else 'j1939-22'
+        x = rng.choice([0x50, 0x00, 0xFD, rng.randrange(0, 254)])
+        if x in (0x40, 0x43, 0x44):
+            x = 0x51
+        size = rng.choice([9, 20, 40]) if dll == 'j1939-21' else rng.choice([61, 130])
+        script = [dict(t=1000, s=0, op='send', a=[0, 0xD0, 0x91, 6, x, dict(seed=rng.getrandbits(20), len=size)])]
+        fr = [f for f in frames_for(dll, x, 0x91) if f[0] in ('pdu1-app', 'tp-rts', 'tp-cts', 'fd-rts', 'fd-cts', 'fd-multipg')]
+        inject = [dict(t=5_000_000 + 1000 * i, to=0, id=f[1], data=f[2], fd=f[3], via='listener') for i, f in enumerate(fr)]
+        yield dict(stacks=[dict(dll=dll, max_cmdt=2, subs=SHAPES[3]['subs'], cas=SHAPES[3]['cas'])], lat=[1], jit=[1], script=script, inject=inject,
+                   horizon=9_000_000, meta=dict(kind='sent-from-unowned', dest=x, dll=dll, shape=3, broadcast=False))
+
+
+def oracle_sender(sc, res):
+    m, v = sc['meta'], []
+    late = [e for e in res.trace if e[0] >= 5_000_000]
+    if any(e[2] == 'tx' for e in late):
+        e = [e for e in late if e[2] == 'tx'][0]
+        v.append(dict(kind='foreign-frame-answered', meta=m, t=e[0], id=hex(e[3]), data=list(e[6])))
+    if any(e[2] == 'cb' for e in late):
+        v.append(dict(kind='foreign-frame-delivered', meta=m))
+    if not all(res.empty):
+        v.append(dict(kind='foreign-frame-left-state', meta=m))
+    for js in res.job:
+        if js != 'alive':
+            v.append(dict(kind='job-thread-' + js, meta=m))
+    return v
+
+
 def oracle_late(sc, res):
     m = sc['meta']
     v = []
@@ -181,6 +295,12 @@ def oracle(sc, res):
         return oracle_leaver(sc, res)
     if m is not None and m.get('kind') == 'late-subscriber':
         return oracle_late(sc, res)
+    if m is not None and m.get('kind') == 'request-two-cas':
+        return oracle_request(sc, res)
+    if m is not None and m.get('kind') == 'cmdt-pdu2':
+        return oracle_cmdt_pdu2(sc, res)
+    if m is not None and m.get('kind') == 'sent-from-unowned':
+        return oracle_sender(sc, res)
     if m is None:
         return oracle_tp.check_exactly_once(sc, res) + bystander(sc, res)
     v = []
@@ -251,13 +371,13 @@ def run(out, tier, rng, work):
                 'can.Message flag combinations through the real MessageListener; bystander scenarios (third stack observing foreign '
                 'transfers); oracle: fired callbacks == delivery rule, unaccepted frames cause no delivery / no frame / no state; J1939-21 '
                 'handler logs replayed on the Coq model; non-trivial = the frame was dispatched (accepted) or a filter decision was exercised'
-                ' Frames with data page 1 included.')
+                ' Frames with data page 1 included.  Plus: requests to one of two operational CAs of one ECU (parameter group and address-claim PGN); a PDU2 parameter group carried in connection mode to one address; frames for an address the ECU has only ever SENT from.')
     out.assumptions = ['A1-A6 of DESIGN.md section 3']
     C.std_proof_stage(out, 'C05', FILES)
     dests = sorted(set([0, 1, 0x3F, 0x40, 0x41, 0x42, 0x43, 0x44, 0x45, 0x46, 0x47, 0x48, 0x7F, 0x80, 0xEA, 0xFD, 0xFE, 0xFF] + [rng.randrange(256) for _ in range(25)])) if tier == 'quick' else list(range(256))
     runs = []
     worst = {}
-    for sc in list(one_frame_cases(['j1939-21', 'j1939-22'], dests)) + list(flag_cases(['j1939-21', 'j1939-22'])) + list(leaver_cases(rng, 60 if tier == 'quick' else 1500)) + list(late_cases(rng, 36 if tier == 'quick' else 600)):
+    for sc in list(one_frame_cases(['j1939-21', 'j1939-22'], dests)) + list(flag_cases(['j1939-21', 'j1939-22'])) + list(leaver_cases(rng, 60 if tier == 'quick' else 1500)) + list(late_cases(rng, 36 if tier == 'quick' else 600)) + list(request_cases(['j1939-21', 'j1939-22'])) + list(cmdt_pdu2_cases([0x40, 0x41, 0x44, 0x46, 0, 0x99] if tier == 'quick' else dests)) + list(sender_cases(rng, 12 if tier == 'quick' else 200)):
         res = scen.run(sc)
         runs.append((sc, res))
         out.add_case(scen.sc_hash(sc), True, sample=sc['meta'] if len(out.samples) < 3 else None)
